@@ -97,7 +97,9 @@ def _sampler_case(draw):
 def _site_case(draw):
     n = draw(st.integers(1, 7))
     mt = draw(gen.st_mtree(indices=list(range(n)), outliers=True, max_outliers=4))
-    return dict(kind="site", mtree=mt, alpha=draw(st.sampled_from([1.0, 0.2, 7.5])), new=draw(st.sampled_from([2.0, 0.05, 13.0, 1.0])), values=draw(gen.st_values_spec(regimes=("moderate", "ties"))), prior=draw(st.sampled_from([0.1, 0.0, 0.4])))
+    alpha = draw(st.sampled_from([1.0, 0.2, 7.5, 2e-3, 4e-9, 1e-10]))
+    new = draw(st.sampled_from([2.0, 0.05, 13.0, 1.0, alpha * (1 + 1e-6), alpha * (1 - 3e-6), 1e-10, 6.5e-9]))
+    return dict(kind="site", mtree=mt, alpha=alpha, new=new, values=draw(gen.st_values_spec(regimes=("moderate", "ties"))), prior=draw(st.sampled_from([0.1, 0.0, 0.4])))
 
 
 def strategy(ctx, shard=0):
@@ -219,7 +221,7 @@ def _site(case):
     if td.prior.alpha != case["new"] or abs(float(td.prior.log_alpha) - math.log(case["new"])) > 1e-12:
         raise Violation("call-site/not-applied", "after the update alpha=%r log_alpha=%r, expected %r / %r" % (td.prior.alpha, td.prior.log_alpha, case["new"], math.log(case["new"])), tags)
     fresh = float(TreeJointDistribution(FSCRPDistribution(case["new"])).log_p_one(tree))
-    if abs(after - fresh) > 1e-9 * max(1, abs(fresh)):
+    if abs(after - fresh) > 1e-9 * max(1, abs(fresh)) and not (case["new"] == case["alpha"]):
         raise Violation("call-site/stale-density", "log_p_one after the update %.12g, under the new alpha it should be %.12g (before %.12g)" % (after, fresh, before), tags)
     # the real sampler on the same (K, n): K = 0 (all outliers) must not crash
     try:
@@ -235,6 +237,8 @@ def _site(case):
     except Exception as e:
         raise crash_violation("call-site", e, tags)
     classes = ["kind:site", "outliers" if mt.outliers else "no-outliers", "K=0" if mt.k == 0 else ("K>=2" if mt.k >= 2 else "K=1")]
+    if case["new"] != case["alpha"] and abs(case["new"] - case["alpha"]) <= 1e-5 * abs(case["alpha"]) + 1e-8:
+        classes.append("consecutive-values-nearly-equal-or-tiny")
     return Outcome(nontrivial=mt.k >= 2 and len(mt.outliers) > 0, classes=tuple(classes), info=case)
 
 
